@@ -105,25 +105,27 @@ def finish(prop, tier, seed, obligations, undecided, notes, vr, kr, wall, write_
         text, reproduced = "", False
         if ob.backend.startswith("rustc"):
             text = (kr.extra.get("replay_text", "") if kr else "")
-        elif ob.backend.startswith("kani") and len(violations) < 3:
+        elif ob.backend.startswith("kani") and len(violations) < 2:
             if kani_meta is None:
                 kani_meta = kani_backend.load_meta()
             m = kani_meta.get(ob.name.split("::")[-1])
             if m is not None:
                 try:
-                    text, reproduced = kani_backend.playback(m, prop)
+                    # the replay is best effort and time-boxed: the first counterexample gets
+                    # 15 minutes, a second one 5
+                    text, reproduced = kani_backend.playback(m, prop, 900 if not violations else 300)
                 except Exception as ex:  # replay is best effort
                     text = f"[replay] playback failed: {ex}"
         elif ob.backend.startswith("verus"):
             text = verus_backend.diagnostic_for(vr, ob)
             paired = verus_backend.paired_harness(ob)
-            if paired and len(violations) < 3:
+            if paired and len(violations) < 2:
                 if kani_meta is None:
                     kani_meta = kani_backend.load_meta()
                 m = kani_meta.get(paired)
                 if m is not None:
                     try:
-                        t2, reproduced = kani_backend.playback(m, prop)
+                        t2, reproduced = kani_backend.playback(m, prop, 900 if not violations else 300)
                         text += "\n---- paired Kani harness %s ----\n%s" % (paired, t2)
                     except Exception as ex:
                         text += f"\n[replay] playback failed: {ex}"
